@@ -5,7 +5,8 @@
     run(wasm, calls, imports_spec=None, mem_hash=False, timeout=10.0) -> RunResult
 
 calls: [(export_name: bytes|str, [(type, bits), ...]), ...] executed in order on ONE instance.
-imports_spec: {'globals': {import_ordinal: bits}}  (optional; ordinals index module.imports);
+imports_spec: {'globals': {import_ordinal: bits}, 'mem_fill': {import_ordinal: [[offset, hexbytes], ...]}}  (optional; ordinals index
+module.imports; mem_fill = bytes the embedder writes into an imported memory before instantiation);
   function imports are always satisfied by logging host functions whose result is
   host_result(type, host_hash(func_import_index, arg_bits)) (see below); memories/tables are
   created with their declared limits.
@@ -192,6 +193,9 @@ class Session(object):
                     e['bits'] = str(gl.get(n, gl.get(str(n), 0)))
                 elif im.kind == 'memory':
                     e.update(min=im.desc.min, max=im.desc.max, shared=im.desc.shared)
+                    mf = (imports_spec or {}).get('mem_fill') or {}
+                    if mf.get(n, mf.get(str(n))):
+                        e['fill'] = [[int(o), str(h)] for o, h in mf.get(n, mf.get(str(n)))]
                 else:
                     e.update(min=im.desc.limits.min, max=im.desc.limits.max)
                 req['imports'].append(e)
